@@ -155,6 +155,14 @@ func TestC15Sweep(t *testing.T) {
 			}
 		}
 	}
+	// large pattern counts in the byte fast paths (up to 125000 bytes and beyond; constant and heavily biased content)
+	for _, q := range []gen.Seq{{Family: "constant", N: 1000000, A: 1}, {Family: "constant", N: 1000000, A: 0}, {Family: "biased", N: 1000000, Seed: 3, F: 0.9},
+		{Family: "biased", N: 1000000, Seed: 4, F: 0.05}, {Family: "periodic", N: 1000000, Bits: "00010001"}, {Family: "uniform", N: 4800000, Seed: 5}, {Family: "constant", N: 8 * 70000, A: 1}} {
+		for _, m := range []int{2, 4, 8} {
+			cases = append(cases, c15Case{Kind: "entry", Test: 2, Param: m, Seq: q})
+		}
+		cases = append(cases, c15Case{Kind: "entry", Test: 0, Seq: q})
+	}
 	cases = append(cases, c15Case{Kind: "round", Seq: gen.Seq{Family: "uniform", N: 1000000, Seed: 77}})
 	cases = append(cases, c15Case{Kind: "round", Seq: gen.Seq{Family: "uniform", N: 20000, Seed: 78}})
 	cases = append(cases, c15Case{Kind: "readgroup", Seq: gen.Seq{Family: "uniform", N: 1000000, Seed: 79}})
